@@ -191,21 +191,41 @@ def _eecc_call(net, ranks, nedges):
             "nodes_after": sorted(int(v) for v in net.G.nodes())}, cover
 
 
-def _run_once(edges, m0, ranks):
+def _run_once(edges, m0, ranks, labels=None):
+    """one fresh object; `labels` (strictly increasing ints, vertex i -> labels[i]) relabels the graph handed to the
+    implementation order-preservingly (non-contiguous / large / negative labels); observations are mapped back"""
     import copy
     import gcmpy.covers.eecc as E
+    fwd = (lambda v: labels[v]) if labels else (lambda v: v)
+    inv = {l: i for i, l in enumerate(labels)} if labels else None
     net = E.EECC()
-    given = [tuple(e) for e in edges]
+    given = [tuple(fwd(v) for v in e) for e in edges]
     keep = copy.deepcopy(given)
     net.add_edges_from(given)
     net.set_max_clique_size(m0)
+    # a second object with other contents and another bound stays alive while the first is read
+    decoy = E.EECC()
+    decoy.add_edges_from([(fwd(0) + 1000003, fwd(0) + 1000004), (fwd(0) + 1000004, fwd(0) + 1000005),
+                          (fwd(0) + 1000003, fwd(0) + 1000005)] if edges else [(1000003, 1000004)])
+    decoy.set_max_clique_size(m0 + 1)
     with _patched(RankScript([], 10)):
         mc = sorted(sorted(int(v) for v in c) for c in net.find_cliques())
         lim = _canon_cliques(net.limited_maximal_cliques())
+        decoy.limited_maximal_cliques()
     obs, _ = _eecc_call(net, ranks, len(edges))
     obs["maxcliques"] = mc
     obs["limited"] = lim
     obs["input_unchanged"] = int(given == keep)
+    obs["decoy_edges"] = int(decoy.G.number_of_edges())
+    if inv is not None:
+        def back(cs):
+            return sorted(sorted(inv[v] for v in c) for c in cs)
+        obs["cover"] = back(obs["cover"])
+        obs["maxcliques"] = back(mc)
+        obs["limited"] = back(lim)
+        obs["nodes_after"] = sorted(inv[v] for v in obs["nodes_after"])
+        if obs["rounds"] is not None:
+            obs["rounds"] = [[[inv[v] for v in c] for c in r] for r in obs["rounds"]]
     return obs
 
 
@@ -290,8 +310,9 @@ def impl(case):
     if mode == "hist":
         return _run_history(case["steps"])
     edges, m0 = case["edges"], case["m0"]
+    labels = case.get("labels")
     if mode != "all":
-        return _run_once(edges, m0, case.get("ranks", []))
+        return _run_once(edges, m0, case.get("ranks", []), labels)
     # walk every tie-break sequence of the real code: each run follows `prefix` and then rank 0 to the end, which
     # is one leaf; its siblings at every depth beyond the prefix are pushed
     leaves = []
@@ -299,7 +320,7 @@ def impl(case):
     cap = case.get("cap", LEAF_CAP)
     while stack and len(leaves) < cap:
         prefix = stack.pop()
-        obs = _run_once(edges, m0, prefix)
+        obs = _run_once(edges, m0, prefix, labels)
         counts = obs["counts"]
         full = prefix + [0] * (len(counts) - len(prefix))
         leaves.append([full, obs])
@@ -409,6 +430,8 @@ def _cmp_one(a, b, where, edges, alls=None):
             return f"{where}: {k}: impl {a[k]} model {b[k]}"
     if a.get("input_unchanged", 1) != 1:
         return f"{where}: the edge list handed to add_edges_from was modified"
+    if a.get("decoy_edges", 3) not in (1, 3):
+        return f"{where}: a second EECC object alive at the same time lost / gained edges ({a.get('decoy_edges')})"
     if a["keyed"]:
         if [sorted(r) for r in a["rounds"]] != b["rounds"]:
             return f"{where}: candidates offered to the tie-break: impl {a['rounds']} model {b['rounds']}"
@@ -629,6 +652,13 @@ def _case(es, m0, ranks=None, mode=None, cap=None, rng=None):
     c = {"edges": [list(e) for e in _canon_edges(es)], "m0": m0}
     if rng is not None:
         c["edges"] = _scramble(rng, c["edges"])
+        if rng.random() < 0.5 and c["edges"]:
+            # non-contiguous labels (order-preserving): the model keeps 0..n-1, the implementation sees the labels
+            vs = sorted({v for e in c["edges"] for v in e})
+            lab = sorted(rng.sample(range(-50, 3000), len(vs)))
+            idx = {v: i for i, v in enumerate(vs)}
+            c["edges"] = [[idx[a], idx[b]] for a, b in c["edges"]]
+            c["labels"] = lab
     if mode:
         c["mode"] = mode
         if cap:
@@ -752,6 +782,13 @@ def generate(rng, tier):
             yield _case(es, m0, mode="all", cap=10 if tier == "quick" else 20, rng=sc)
         else:
             yield _case(es, m0, [rng.randint(0, 7) for _ in range(rng.randint(0, 30))], rng=sc)
+    # 3b. sizes beyond the usual: K9 .. K12 (minus / plus a few edges), m0 far below, just below, at and above
+    for _ in range(12 if tier == "quick" else 150):
+        n = rng.choice([9, 9, 10, 10, 11, 12])
+        es = [p for p in itertools.combinations(range(n), 2) if rng.random() < rng.choice([1.0, 1.0, 0.93])]
+        es += [(rng.randrange(n), n + k) for k in range(rng.randint(0, 3))]
+        m0 = rng.choice([2, 3, 4, n - 2, n - 1, n, n + 1, 9, 16])
+        yield _case(es, m0, [rng.randint(0, 40) for _ in range(rng.randint(0, 12))], rng=rng if rng.random() < 0.5 else None)
     # 4. histories of calls on the same objects
     for _ in range(150 if tier == "quick" else 1500):
         yield _history(rng)
